@@ -12,7 +12,7 @@ IMPORTS = ["SocVerif.Props.C20", "SocVerif.Generated.FactsSig", "SocVerif.Genera
 def run(rep, tier):
     info = facts.generate()
     broken = lib.proof_gate(rep, PROP, THEOREMS, IMPORTS)
-    n = 6 if tier == "quick" else 120
+    n = 6 if tier == "quick" else 400
     conn = sigrt.connect_cases(rep.seed, n)
     fails, stats = sigrt.signature_checks()
     seen = set()
